@@ -4,6 +4,9 @@ go 1.21
 
 require github.com/vimeo/dials v0.0.0
 
-require golang.org/x/text v0.19.0 // indirect
+require (
+	github.com/fatih/structtag v1.2.0 // indirect
+	golang.org/x/text v0.19.0 // indirect
+)
 
 replace github.com/vimeo/dials => /repo
